@@ -374,7 +374,7 @@ def check_step(E, outcome, exc, env, pre, C, M, params, log, rec, old_records, n
     msg = exit_info.msg
     flag = exit_info.flag
     if 'sufficiently small' in msg:
-        E.prove(E.le(obj, M.min_objective_value()), 'C10:exit:small-objective-message-is-true')
+        E.prove(E.le(obj, M.min_objective_value(), tol=0), 'C10:exit:small-objective-message-is-true')
     if 'rho has reached rhoend' in msg:
         E.prove(E.eq(C.rho, env['rhoend']), 'C10:exit:%s:rho-equals-rhoend' % site)
     if flag == E.get('EXIT_MAXFUN_WARNING'):
